@@ -240,7 +240,11 @@ def targeted(rng, curve="BN254"):
     values merged at joins, loops, every operator on constants)."""
     p = PRIMES[curve]
     lit = lambda: str(rng.choice([0, 1, 2, 3, 5, p - 1, p // 2, p // 2 + 1, 255, 256, 1 << 20]))
-    k = rng.randrange(11)
+    k = rng.randrange(13)
+    if k == 11:    # a loop as the very first statement (block 0 must stay the entry without predecessors)
+        return ("function f(n) { while (n > %s) { n -= 1; } return n; }" % lit())
+    if k == 12:    # a loop as the first statement of a template, on a parameter
+        return ("template T(n) { while (n < %s) { n = n + 1; } signal input a; signal output b; b <-- a * n; }" % lit())
     if k == 8:     # field element (possibly "negative") as ternary condition
         return ("function f() { var d = %s - %s; var s = d ? %s : %s; if (s == %s) { return 1; } return s; }" % (lit(), lit(), lit(), lit(), lit()))
     if k == 9:     # same-named variables that both need a phi in one block (shadowing inside a loop)
